@@ -17,6 +17,32 @@ fn main() {
         std::process::exit(2);
     }
     let id = args[1].as_str();
+    if id == "dbg" {
+        // vcheck dbg <grammar file> <input> [glr] : compile and parse once, print the result
+        vcheck::compile::install_panic_hook();
+        let text = std::fs::read_to_string(&args[2]).expect("grammar file");
+        let input = args.get(3).cloned().unwrap_or_default();
+        let glr = args.get(4).map(|s| s == "glr").unwrap_or(false);
+        let cfg = if glr { vcheck::compile::Cfg::glr() } else { vcheck::compile::Cfg::lr() };
+        match vcheck::compile::compile(&text, &cfg) {
+            Ok(d) => {
+                eprintln!("states {} conflict cells {}", d.states.len(), vcheck::compile::conflict_cells(&d));
+                vcheck::props::common::install(&d, &cfg).unwrap();
+                vcheck::dynp::reset_steps(1_000_000);
+                let r = vcheck::compile::guarded(|| {
+                    if glr {
+                        vcheck::dynp::glr_parse(&input, Default::default(), 20, false)
+                            .map(|o| format!("solutions {} {:?}", o.solutions, o.trees.iter().map(|t| vcheck::props::common::canon_real(&d, t, true)).collect::<Vec<_>>()))
+                    } else {
+                        vcheck::dynp::lr_parse(&input, Default::default()).map(|t| vcheck::props::common::canon_real(&d, &t, true))
+                    }
+                });
+                eprintln!("{r:?} steps {}", vcheck::dynp::steps());
+            }
+            Err(e) => eprintln!("compile: {e:?}"),
+        }
+        return;
+    }
     let tier = match args[2].as_str() {
         "quick" => Tier::Quick,
         "thorough" => Tier::Thorough,
@@ -52,6 +78,8 @@ fn main() {
         "C07" => go(props::c07::C07, tier, seed, &replay),
         "C12" => go(props::c12::C12, tier, seed, &replay),
         "C13" => go(props::c13::C13, tier, seed, &replay),
+        "C14" => go(props::c14::C14, tier, seed, &replay),
+        "C15" => go(props::c15::C15, tier, seed, &replay),
         _ => {
             eprintln!("unknown property {id}");
             std::process::exit(2);
